@@ -164,6 +164,16 @@ func (ssc *defaultStatefulSetControl) ListRevisions(set *apps.StatefulSet) ([]*k
 		// Only orphans and revisions controlled by this set belong to its
 		// history; revisions of other owners may match the selector too.
 		if ref := metav1.GetControllerOfNoCopy(&local); ref != nil && ref.UID != set.GetUID() {
+			// A revision marked by helper.Upgrade for this set but still controlled by
+			// the built-in StatefulSet of the same name: the migration is under way
+			// and the garbage collector has not orphaned it yet. Reconciling now would
+			// not see the set's history (and could record it a second time under
+			// another name, restarting every pod later), so wait for the orphaning.
+			if local.Labels[helper.UpgradeToAdvancedStatefulSetAnn] == set.Name &&
+				ref.APIVersion == kubeapps.SchemeGroupVersion.String() && ref.Kind == "StatefulSet" && ref.Name == set.Name {
+				return nil, fmt.Errorf("ControllerRevision %s/%s is being migrated to StatefulSet %s but is still controlled by the built-in StatefulSet; waiting for it to be orphaned",
+					local.Namespace, local.Name, set.Name)
+			}
 			continue
 		}
 		res = append(res, &local)
